@@ -547,10 +547,15 @@ func (runInfo *runInfoStruct) runForMapStmt(stmt *ast.ForStmt, value reflect.Val
 		default:
 		}
 
+		item := value.MapIndex(keys[i])
+		if !item.IsValid() {
+			// the entry was removed by an earlier iteration: as in Go it is not visited
+			continue
+		}
 		runInfo.env.DefineValue(stmt.Vars[0], keys[i])
 
 		if len(stmt.Vars) > 1 {
-			runInfo.env.DefineValue(stmt.Vars[1], value.MapIndex(keys[i]))
+			runInfo.env.DefineValue(stmt.Vars[1], item)
 		}
 
 		runInfo.stmt = stmt.Stmt
